@@ -417,6 +417,14 @@ def c02_billing(stream, res, impl):
                     if credit != 0 and got != want:
                         return "keep-alive of %s: elapsed %d ns x price %d / interval %d = %d per peer, %d active peers: debit should be %d, balance moved by %d" % (
                             who, el, price, interval, credit, len(peers), -want, got)
+            # a (re)connect restarts the billing clock: the elapsed time of the next keep-alive counts from it
+            if d is not None and len(between) == 1 and between[0][0].split()[1] == "connect" and between[0][1] == "ok":
+                bt = between[0][0].split()
+                cnow = _kv(between[0][0]).get("now", "")
+                nd = d["nodes"].get(bt[3])
+                if nd and cnow.startswith("t:") and nd["lastSeen"] < int(cnow[2:]):
+                    return ("connect of %s at %s left its last check-in at %d: the next keep-alive will bill the time before the connect"
+                            % (bt[3], cnow, nd["lastSeen"]))
             prev, between = d, []
         else:
             between.append((op, out))
@@ -449,25 +457,32 @@ def _registry_sim(res, impl):
 def c09_registry(stream, res, impl):
     """NumRemotes = hosts with a live registration; whitelist/disconnect calls only go to such connections"""
     if stream["component"] == "poolbin":
-        reg = {}
+        reg, refusing = {}, set()
         for op, out in zip(res, impl):
             t = op.split()
             if len(t) < 2:
                 continue
             if t[0] == "case":
-                reg = {}
+                reg, refusing = {}, set()
             elif t[1] == "hostconn" and out == "ok":
                 reg[t[3]] = t[2]
+            elif t[1] == "hostmode" and t[2] in reg.values():
+                (refusing.add if t[3] == "refuse" else refusing.discard)(t[2])
             elif t[1] == "closeconn":
+                refusing.discard(t[2])
                 for h in [h for h, c in reg.items() if c == t[2]]:
                     del reg[h]
             elif t[1] == "peer":
                 kv = _kv(out)
                 wl = sorted(x for x in kv.get("wl", "").split(",") if x)
                 hosts = sorted(x for x in kv.get("hosts", "").split(",") if x)
-                if wl != sorted(reg.values()) or hosts != sorted(reg) or out.startswith("err RemoteHostErrors"):
+                acked = sorted(h for h, c in reg.items() if c not in refusing)
+                if wl != sorted(reg.values()):
                     return ("hosts with a live connection: %s; the pool called connections %s and answered the client `%s`"
                             % (sorted(reg.items()), wl, out[:160]))
+                if hosts != acked:
+                    return ("hosts that acknowledged the whitelist instruction: %s (refusing connections: %s); the client was given %s"
+                            % (acked, sorted(refusing), hosts))
         return None
     if stream["component"] != "pool":
         return None
@@ -529,6 +544,9 @@ def c05_nonce(stream, res, impl):
             if kv.get("rounds-with-duplicates", "0") != "0":
                 return ("the same (identity, nonce) was accepted more than once by concurrent submissions in %s round(s): %s -> %s"
                         % (kv["rounds-with-duplicates"], op[:120], out))
+            if kv.get("rounds-with-regress", "0") != "0":
+                return ("after concurrent submissions of one identity the highest honoured nonce was honoured again in %s round(s): the nonce table moved backwards (%s -> %s)"
+                        % (kv["rounds-with-regress"], op[:120], out))
             continue
         if comp == "noncettl" and t[1] == "run":
             evs = [x for x in t if x.startswith("ev=")]
@@ -874,4 +892,10 @@ def c20_life(stream, res, impl):
 
 def c10_conc(stream, res, impl):
     """concurrent workloads: nonce decisions and withdrawals must be those of some serial order"""
-    return c05_nonce(stream, res, impl) or c07_withdraw(stream, res, impl)
+    return c05_nonce(stream, res, impl) or c07_withdraw(stream, res, impl) or c14_rpc(stream, res, impl)
+
+
+def c08_c09(stream, res, impl):
+    if stream["component"] == "poolbin":
+        return c09_registry(stream, res, impl)
+    return c08_acknowledged(stream, res, impl)
